@@ -137,6 +137,15 @@ def merged_view(current, received):
     return type(received)(ids=(*current.ids, *received.ids))
 
 
+def merged_view_rev(current, received):
+    """a SECOND merge for the same view, asked for right after the first one: prepends instead of appending"""
+    from haiway import MISSING
+
+    if current is MISSING:
+        return received
+    return type(received)(ids=(*received.ids, *current.ids))
+
+
 class LogErr(Exception):
     pass
 
@@ -274,6 +283,11 @@ class ProgBase(BaseException):
 
 class DispErr(Exception):
     pass
+
+
+class DispBase(BaseException):
+    """a disposable's own failure that is not an Exception (its internal worker was cancelled / a KeyboardInterrupt-like
+    signal of the resource): still that disposable's cleanup or entering error"""
 
 
 class ProgFalsy(ProgErr):
@@ -417,6 +431,10 @@ class Run:
             self.ev("probe", path, lookups=res, fp=self.fingerprint() if op.get("fp") else None)
         elif k == "yield":
             await asyncio.sleep(0)
+        elif k == "gc":
+            import gc
+
+            gc.collect()
         elif k == "reseed":
             # the program puts the process-wide random generator into a known state (reproducible sampling, a worker that
             # seeds per request): nothing the library hands out as "fresh" or "unique" may depend on it
@@ -493,6 +511,14 @@ class Run:
             lg.setLevel(logging.WARNING if op.get("logger") == "late" else logging.DEBUG)
             if self.handler is not None:
                 lg.addHandler(self.handler)
+
+            def stamp(record, path=path):
+                # a filter of THIS Logger object: a record carries the stamp iff it went through the very object that was
+                # handed to the scope (a namesake obtained from the logging registry is another logger)
+                record.hv_logger_path = path
+                return True
+
+            lg.addFilter(stamp)
             self.loggers[path] = lg
             kw["logger"] = lg
         if op.get("trace") is not None:
@@ -512,17 +538,21 @@ class Run:
             kw["completion"] = acompletion
         return kw
 
+    retain_metrics = True  # False: the harness keeps nothing of a completed scope alive (its objects may be freed and reused)
+
     def on_completion(self, path, metrics):
-        self.completions.append((path, metrics))
+        self.completions.append((path, metrics if self.retain_metrics else None))
         info = {}
         try:
             info["read"] = {n: (lambda m: None if m is None else tuple(m.ids))(metrics.read(T)) for n, T in METRICS.items()}
             info["merged"] = {type(m).__name__: tuple(m.ids) for m in metrics.metrics(merge=merged_view)}
+            # the same view asked for again with ANOTHER merge function: every request folds with the function it was given
+            info["merged_rev"] = {type(m).__name__: tuple(m.ids) for m in metrics.metrics(merge=merged_view_rev)}
             info["ident"] = (metrics.trace_id, metrics.label, metrics.identifier)
             info["completed"] = metrics.is_completed
         except Exception as exc:  # noqa: BLE001
             info["error"] = repr(exc)
-        self.ev("completion", path, metrics=metrics, **info)
+        self.ev("completion", path, metrics=metrics if self.retain_metrics else None, **info)
 
     async def block(self, op, path, owner, mscope=None):  # noqa: C901
         fp_before = self.fingerprint()
@@ -635,8 +665,8 @@ class Double:
             except asyncio.CancelledError:
                 self.run.ev(f"d_{phase}_cancelled", self.path, j=self.j)
                 raise
-        if b.endswith("raise"):
-            e = DispErr((phase, self.path, self.j))
+        if b.endswith("raise") or b.endswith("raise_base"):
+            e = (DispBase if b.endswith("raise_base") else DispErr)((phase, self.path, self.j))
             self.run.ev(f"d_{phase}_raise", self.path, j=self.j, exc=e)
             raise e
 
@@ -750,7 +780,7 @@ def execute(prog, inject_at=None, releases=(), run_cls=Run, after=None):
     else:
         out["outcome"], out["exc"] = res.value
         exc = out["exc"]
-        if out["outcome"] == "raise" and not isinstance(exc, (ProgErr, ProgBase, DispErr, GeneratorExit, asyncio.CancelledError, BaseExceptionGroup)):
+        if out["outcome"] == "raise" and not isinstance(exc, (ProgErr, ProgBase, DispErr, DispBase, GeneratorExit, asyncio.CancelledError, BaseExceptionGroup)):
             from hv.core import _haiway_frame
 
             if _haiway_frame(exc.__traceback__) is None:
